@@ -68,92 +68,93 @@ def run(eng, R):
          (f.file, f.lineno), "the density must be evaluated at the given parameters, by default the model's current ones")
 
     # ---- selection table
-    ini = get_func(p, M, "__init__")
-    sel = _selection_table(p, ini)
-    want = {"rectangle": "_bin_evaluation_rectangle", "midpoint": "_bin_evaluation_rectangle", "trapezoid": "_bin_evaluation_trapezoid", "simpson": "_bin_evaluation_simpson", "numerical": "_bin_evaluation_numerical"}
-    for k, v in want.items():
-        R.ob("S-sel", "%s.__init__:%s" % (M, k), sel.get(k) == v, (ini.file, ini.lineno), "bin_evaluation='%s' selects %s, expected %s" % (k, sel.get(k), v))
-    rc = get_func(p, M, "_recalculate")
-    g = eng.cfg(rc)
+    with R.guard("selection table"):
+        ini = get_func(p, M, "__init__")
+        sel = _selection_table(p, ini)
+        want = {"rectangle": "_bin_evaluation_rectangle", "midpoint": "_bin_evaluation_rectangle", "trapezoid": "_bin_evaluation_trapezoid", "simpson": "_bin_evaluation_simpson", "numerical": "_bin_evaluation_numerical"}
+        for k, v in want.items():
+            R.ob("S-sel", "%s.__init__:%s" % (M, k), sel.get(k) == v, (ini.file, ini.lineno), "bin_evaluation='%s' selects %s, expected %s" % (k, sel.get(k), v))
+        rc = get_func(p, M, "_recalculate")
+        g = eng.cfg(rc)
 
-    def stores(n):
-        st = n.stmt
-        return n.kind == "stmt" and isinstance(st, ast.Assign) and any(isinstance(t, ast.Subscript) and self_attr(t.value) == "_data" and ast.unparse(t.slice) == "1:-1" for t in st.targets) \
-            and isinstance(st.value, ast.Call) and self_attr(st.value.func) == "_bin_evaluation_method"
+        def stores(n):
+            st = n.stmt
+            return n.kind == "stmt" and isinstance(st, ast.Assign) and any(isinstance(t, ast.Subscript) and self_attr(t.value) == "_data" and ast.unparse(t.slice) == "1:-1" for t in st.targets) \
+                and isinstance(st.value, ast.Call) and self_attr(st.value.func) == "_bin_evaluation_method"
 
-    def clears(n):
-        st = n.stmt
-        return n.kind == "stmt" and isinstance(st, ast.Assign) and any(self_attr(t) == "_pm_calculation_stale" for t in st.targets) and isinstance(st.value, ast.Constant) and st.value.value is False
+        def clears(n):
+            st = n.stmt
+            return n.kind == "stmt" and isinstance(st, ast.Assign) and any(self_attr(t) == "_pm_calculation_stale" for t in st.targets) and isinstance(st.value, ast.Constant) and st.value.value is False
 
-    R.ob("S-sel", "%s._recalculate" % M, g.all_paths_pass(g.entry.id, stores)[0] and g.all_paths_pass(g.entry.id, clears)[0], (rc.file, rc.lineno),
-         "_recalculate must store the selected rule's result in the bin slice _data[1:-1] and clear the stale flag")
+        R.ob("S-sel", "%s._recalculate" % M, g.all_paths_pass(g.entry.id, stores)[0] and g.all_paths_pass(g.entry.id, clears)[0], (rc.file, rc.lineno),
+             "_recalculate must store the selected rule's result in the bin slice _data[1:-1] and clear the stale flag")
 
     # ---- HistFit
-    hm = get_func(p, "HistFit", "model")
-    cn = eng.cnode(hm)  # canonical: aliases resolved, negated test / early return folded into one if/else form
-    rs = return_exprs(cn)
-    got = {}
-    for conds, e, env in rs:
-        key = " and ".join(("" if pol else "not ") + ast.unparse(t) for t, pol in conds)
-        got[key] = Normalizer(env).norm(e).canon()
-    ok = False
-    for flag in ("self._param_model.density", "self._density"):  # the reader keeps the fit's flag equal to the model's (C09 E14)
-        ok = ok or (got.get(flag) == "self._data_container.n_entries*self._param_model.data" and got.get("not " + flag) == "self._param_model.data")
-    if not ok and len(got) == 1:
-        # the scale may live in a (shared) helper: `self._param_model.data * self.<helper>()` with helper = n_entries for a density, 1 otherwise
-        (form,) = got.values()
-        for m_ in p.find_class("HistFit").all_methods().values():
-            if not hasattr(m_, "node") or ("(self).%s()" % m_.name) not in form:
-                continue
-            if form not in ("(self).%s()*self._param_model.data" % m_.name,):
-                continue
-            hr = {}
-            for conds, e, env in return_exprs(eng.cnode(m_)):
-                key = " and ".join(("" if pol else "not ") + ast.unparse(t) for t, pol in conds)
-                hr[key] = Normalizer(env).norm(e).canon()
-            for flag in ("self._param_model.density", "self._density"):
-                if hr.get(flag) == "self._data_container.n_entries" and hr.get("not " + flag) == "1":
-                    ok = True
-    R.ob("S-fit", "HistFit.model", ok, (hm.file, hm.lineno), "HistFit.model must be density integral x number of entries for a density, the bare bin contents otherwise (found %s)" % got)
-    # the push comes before the first read of the model's data on every path
-    g = eng.ccfg(hm)
+    with R.guard("HistFit"):
+        hm = get_func(p, "HistFit", "model")
+        cn = eng.cnode(hm)  # canonical: aliases resolved, negated test / early return folded into one if/else form
+        rs = return_exprs(cn)
+        got = {}
+        for conds, e, env in rs:
+            key = " and ".join(("" if pol else "not ") + ast.unparse(t) for t, pol in conds)
+            got[key] = Normalizer(env).norm(e).canon()
+        ok = False
+        for flag in ("self._param_model.density", "self._density"):  # the reader keeps the fit's flag equal to the model's (C09 E14)
+            ok = ok or (got.get(flag) == "self._data_container.n_entries*self._param_model.data" and got.get("not " + flag) == "self._param_model.data")
+        if not ok and len(got) == 1:
+            # the scale may live in a (shared) helper: `self._param_model.data * self.<helper>()` with helper = n_entries for a density, 1 otherwise
+            (form,) = got.values()
+            for m_ in p.find_class("HistFit").all_methods().values():
+                if not hasattr(m_, "node") or ("(self).%s()" % m_.name) not in form:
+                    continue
+                if form not in ("(self).%s()*self._param_model.data" % m_.name,):
+                    continue
+                hr = {}
+                for conds, e, env in return_exprs(eng.cnode(m_)):
+                    key = " and ".join(("" if pol else "not ") + ast.unparse(t) for t, pol in conds)
+                    hr[key] = Normalizer(env).norm(e).canon()
+                for flag in ("self._param_model.density", "self._density"):
+                    if hr.get(flag) == "self._data_container.n_entries" and hr.get("not " + flag) == "1":
+                        ok = True
+        R.ob("S-fit", "HistFit.model", ok, (hm.file, hm.lineno), "HistFit.model must be density integral x number of entries for a density, the bare bin contents otherwise (found %s)" % got)
+        # the push comes before the first read of the model's data on every path
+        g = eng.ccfg(hm)
 
-    def pushes(n):
-        st = n.stmt
-        return n.kind == "stmt" and isinstance(st, ast.Assign) and any(common.src_of(t) == "self._param_model.parameters" for t in st.targets) and common.src_of(st.value) == "self.parameter_values"
+        def pushes(n):
+            st = n.stmt
+            return n.kind == "stmt" and isinstance(st, ast.Assign) and any(common.src_of(t) == "self._param_model.parameters" for t in st.targets) and common.src_of(st.value) == "self.parameter_values"
 
-    def reads_data(n):
-        return any(isinstance(x, ast.Attribute) and x.attr == "data" and common.src_of(x.value) == "self._param_model" for part in n.ast_parts() for x in ast.walk(part))
+        def reads_data(n):
+            return any(isinstance(x, ast.Attribute) and x.attr == "data" and common.src_of(x.value) == "self._param_model" for part in n.ast_parts() for x in ast.walk(part))
 
-    first_reads = [n for n in g.nodes if n.kind in ("stmt", "test") and reads_data(n)]
-    ok = bool(first_reads)
-    for rd in first_reads:
-        path = g.find_path(g.entry.id, lambda m, rd=rd: m.id == rd.id, exceptional=False, avoid=pushes)
-        ok = ok and path is None
-    R.ob("S-fit", "HistFit.model:push", ok, (hm.file, hm.lineno), "HistFit.model must push the current parameter values into the model before reading it")
-    sp = get_func(p, "HistFit", "_set_new_parametric_model")
-    g = eng.cfg(sp)
+        first_reads = [n for n in g.nodes if n.kind in ("stmt", "test") and reads_data(n)]
+        ok = bool(first_reads)
+        for rd in first_reads:
+            path = g.find_path(g.entry.id, lambda m, rd=rd: m.id == rd.id, exceptional=False, avoid=pushes)
+            ok = ok and path is None
+        R.ob("S-fit", "HistFit.model:push", ok, (hm.file, hm.lineno), "HistFit.model must push the current parameter values into the model before reading it")
+        sp = get_func(p, "HistFit", "_set_new_parametric_model")
+        g = eng.cfg(sp)
 
-    def assigns_model(n):
-        st = n.stmt
-        return n.kind == "stmt" and isinstance(st, ast.Assign) and any(self_attr(t) == "_param_model" for t in st.targets)
+        def assigns_model(n):
+            st = n.stmt
+            return n.kind == "stmt" and isinstance(st, ast.Assign) and any(self_attr(t) == "_param_model" for t in st.targets)
 
-    ok, wit = g.all_paths_pass(g.entry.id, assigns_model)
-    R.ob("S-fit", "HistFit._set_new_parametric_model:always", ok, (sp.file, sp.lineno),
-         "_set_new_parametric_model can return without building a model for the new data container: the old model keeps integrating over the old bin edges")
-    csp = eng.cnode(sp)
-    calls = [n.value for n in ast.walk(csp) if isinstance(n, ast.Assign) and any(self_attr(t) == "_param_model" for t in n.targets) and isinstance(n.value, ast.Call)]
-    ok = bool(calls)
-    ctor = p.find_class("HistParametricModel").find_method("__init__")
-    want = {"n_bins": "self._data_container.size", "bin_range": "self._data_container.bin_range", "model_density_func": "self._model_function", "model_parameters": "self.parameter_values",
-            "bin_edges": "self._data_container.bin_edges", "bin_evaluation": "self._bin_evaluation", "density": "self._density"}
-    from . import norm
-    for c in calls:
-        bound = {k: norm.txt(v) for k, v in norm.bind_call(c, ctor.node).items()}
-        ok = ok and all(bound.get(k) == v for k, v in want.items())
-    R.ob("S-fit", "HistFit._set_new_parametric_model:args", ok, (sp.file, sp.lineno),
-         "the parametric model must be built from the current container's size, range and edges, the fit's model function, parameters, bin evaluation and density flag")
-
+        ok, wit = g.all_paths_pass(g.entry.id, assigns_model)
+        R.ob("S-fit", "HistFit._set_new_parametric_model:always", ok, (sp.file, sp.lineno),
+             "_set_new_parametric_model can return without building a model for the new data container: the old model keeps integrating over the old bin edges")
+        csp = eng.cnode(sp)
+        calls = [n.value for n in ast.walk(csp) if isinstance(n, ast.Assign) and any(self_attr(t) == "_param_model" for t in n.targets) and isinstance(n.value, ast.Call)]
+        ok = bool(calls)
+        ctor = p.find_class("HistParametricModel").find_method("__init__")
+        want = {"n_bins": "self._data_container.size", "bin_range": "self._data_container.bin_range", "model_density_func": "self._model_function", "model_parameters": "self.parameter_values",
+                "bin_edges": "self._data_container.bin_edges", "bin_evaluation": "self._bin_evaluation", "density": "self._density"}
+        from . import norm
+        for c in calls:
+            bound = {k: norm.txt(v) for k, v in norm.bind_call(c, ctor.node).items()}
+            ok = ok and all(bound.get(k) == v for k, v in want.items())
+        R.ob("S-fit", "HistFit._set_new_parametric_model:args", ok, (sp.file, sp.lineno),
+             "the parametric model must be built from the current container's size, range and edges, the fit's model function, parameters, bin evaluation and density flag")
 
 def _check_numerical(eng, R, f):
     """the numerical rule integrates the density over every (lower, upper) pair of adjacent edges and stores the integral in the slot of that bin - found structurally:
